@@ -25,6 +25,8 @@ HARNESSES = {
     "dhist": ("dhist.cpp", []),
     "lrhist": ("lrhist.cpp", []),
     "slhist": ("slhist.cpp", []),
+    "ptralg": ("ptralg.cpp", []),
+    "slots": ("slots.cpp", []),
 }
 
 
@@ -146,6 +148,17 @@ def c13_jobs(tier):
 
 def c14_jobs(tier):
     return [job("slhist", scale(tier, 240000, 6000000), workers=16, tag=scale(tier, "quick", ""), plain_pct=10)]
+
+
+def c15_jobs(tier):
+    n = scale(tier, 60000, 2000000)
+    tag = scale(tier, "quick", "")
+    return [job("ptralg", scale(tier, 8000, 400000), workers=3, tag="marked"),
+            job("ptralg", scale(tier, 20000, 400000), workers=1, tag="cptr"),
+            job("rclient0", n, workers=3, tag=tag, params={"algebra": 1}),
+            job("rclient1", n, workers=3, tag=tag, params={"algebra": 1}),
+            job("rclient2", n, workers=3, tag=tag, params={"algebra": 1}),
+            job("rclient0", n, workers=1, tag=tag), job("rclient1", n, workers=1, tag=tag), job("rclient2", n, workers=1, tag=tag)]
 
 
 NOT_YET = {}
@@ -389,5 +402,26 @@ PROPS = {
                 "history.",
         "nontrivial_floor": 0.2,
         "assumptions": ["sequentially consistent interleavings", "the seqlock is constructed with an explicit initial value"],
+    },
+    "C15": {
+        "jobs": c15_jobs,
+        "level_text": "Sampled exploration in four parts: (1) marked_ptr round trips for every mark width 0..32 x six upper/lower bit splits "
+                      "with constructed pointer patterns and full-range marks, (2) concurrent_ptr against a one-cell model, (3) single-"
+                      "threaded guard_ptr operation sequences for every reclaimer against a shared-ownership value model, (4) concurrent "
+                      "acquire against a thread that keeps replacing the source (snapshot interval rule).",
+        "level_note": "Trusted: runtime; the bounded-exhaustive enumeration planned in DESIGN.md was replaced by dense random sampling of "
+                      "length-10 sequences (no exhaustiveness claim); pointers are arbitrary bit patterns inside the pointer mask.",
+        "technique": "property-based testing: generated pointer/mark bit patterns and guard operation sequences vs bit-arithmetic and smart-pointer value models",
+        "rule": "cases: (1) per case 12 round trips for each of the 33x6 marked_ptr instantiations (pointer = random or special bit "
+                "pattern masked to the pointer bits, mark = random/special 64-bit value; get/mark/==/bool/reset checked); (2) 20-60 "
+                "load/store/compare_exchange operations on a concurrent_ptr against a one-cell model; (3) one thread, 10 guard operations "
+                "(acquire, acquire_if_equal with equal/unequal/null expected, copy/move assignment incl. self-assignment, copy "
+                "construction + swap, swap, reset twice, guard of a fresh node, publish/unlink+reclaim) with the exact value model checked "
+                "after every step and liveness of every object a guard refers to; (4) the concurrent rclient programs with the rule that the "
+                "object returned by acquire was published to that cell before the call returned and not replaced before it was invoked. "
+                "Non-trivial: (3) a sequence containing copy/move/swap on guards, (1),(2) every case, (4) as C01. Distinct: fingerprint of the "
+                "drawn values / program.",
+        "nontrivial_floor": 0.1,
+        "assumptions": ["marked pointers are aligned for their lower mark bits and fit the pointer bits (documented precondition, by construction)"],
     },
 }
